@@ -234,6 +234,9 @@ def _formula(t, prog, depth):
             return ("atom", "eq", _unref(args[0]), _unref(args[1]))
         if n in ("Group::is_identity",) and len(args) == 1:
             return ("atom", "is_identity", _unref(args[0]))
+        # (vsss-rs 4's `Share::is_zero` on `[u8; L]` / GenericArray / Vec<u8> is `ct_is_zero()` over the WHOLE buffer,
+        # identifier byte included - read in share.rs - so a `use vsss_rs::Share` that makes `bytes.is_zero()` resolve to it
+        # does not change which strings count as zero)
         if n in ("Field::is_zero", "IsZero::is_zero", "Share::is_zero") and len(args) == 1:
             return ("atom", "is_zero", _unref(args[0]))
         if n in ("CtOption::<T>::is_some", "Option::<T>::is_some", "Result::<T, E>::is_ok") and len(args) == 1:
